@@ -6,7 +6,7 @@ Forest (Engine B): one operation from an arbitrary valid forest (added by mirsmt
 from .. import kani, mirrun
 from . import forest
 
-VMAP = ["vmap_one_op", "vmap_iteration", "vmap_grow"]
+VMAP = ["vmap_one_op", "vmap_iteration", "vmap_ops_then_iteration", "vmap_grow"]
 VMAP_THOROUGH = ["vmap_two_ops"]
 TWINS = ["vmap_twin"]
 
